@@ -753,6 +753,71 @@ namespace c17
                       {"changed", !samePts(aft.pts, cur.pts)}});
         }
 
+        // ---- probe: single perturbation steps whose window swallows whole segments.  A path of a few long
+        // segments in the open world under the linear field (perturbations pay off there), a step at least as long
+        // as a segment and a positive snap threshold: the window start falls inside a segment, the window end snaps
+        // onto a vertex one or two positions further on - the insert / erase bookkeeping of every (inside, vertex)
+        // combination is exercised, and with maxSteps = 1 nothing can repair the path afterwards.  Every call
+        // starts from the same fresh path (a NewPath line before each).
+        void runPerturbStepProbe()
+        {
+            world = W.w[3].get();
+            metric = true;
+            si = makeSI(*world, true);
+            objName = "field";
+            makeObjective();
+            Pts in;
+            P2 cur0;
+            if (!randomValid(cur0))
+                return;
+            in = {cur0};
+            const int nseg = 2 + rng.below(4);
+            const double reach = (0.12 + 0.25 * rng.unit()) * world->extent();
+            for (int i = 0; i < nseg; ++i)
+                for (int t = 0; t < 60; ++t)
+                {
+                    P2 nx;
+                    if (randomValid(nx, &in.back(), reach) && segmentOK(in.back(), nx) &&
+                        std::hypot(nx.x - in.back().x, nx.y - in.back().y) > 0.5 * reach)
+                    {
+                        in.push_back(nx);
+                        break;
+                    }
+                }
+            if (in.size() < 3)
+                return;
+            og::PathSimplifier ps(si, ob::GoalPtr(), obj);
+            const double L = std::max(oracleLength(in), 1e-6);
+            double longest = 0;
+            for (std::size_t i = 0; i + 1 < in.size(); ++i)
+                longest = std::max(longest, std::hypot(in[i + 1].x - in[i].x, in[i + 1].y - in[i].y));
+            for (int call = 0; call < 40; ++call)
+            {
+                og::PathGeometric path = toPath(in);
+                Facts cur = measure(path);
+                bool ok = oracleStrictValid(*world, cur.pts);
+                emit(json{{"e", "NewPath"}, {"chain", k}, {"world", world->name}, {"src", "probe-perturb-step"},
+                          {"n", cur.pts.size()}, {"len", cur.len}, {"cost", cur.cost}, {"valid", ok}, {"check", cur.check},
+                          {"finite", cur.finite}, {"metric", metric}, {"goal", false}, {"obj", objName}, {"dense", cur.dense}});
+                const double step = longest * pick<double>({0.6, 1.0, 1.0, 1.3, 2.0});
+                const double sn = pick<double>({0.005, 0.02, 0.05, 0.1});
+                const unsigned ms = pick<unsigned>({1, 1, 1, 2});
+                json params{{"stepMicro", micro(step)}, {"maxSteps", ms}, {"maxEmptySteps", ms}, {"snapPm", (int)(sn * 1000)}};
+                setContext(k, call, "perturbPath", params, cur.pts.size());
+                bool ret = ps.perturbPath(path, step, ms, ms, sn);
+                Facts aft = measure(path);
+                emit(json{{"e", "perturbPath"}, {"chain", k}, {"step", call}, {"p", params}, {"ret", ret}, {"metric", metric},
+                          {"goal", false}, {"obj", objName}, {"nBefore", cur.pts.size()}, {"nAfter", aft.pts.size()},
+                          {"lenBefore", cur.len}, {"lenAfter", aft.len}, {"costBefore", cur.cost}, {"costAfter", aft.cost},
+                          {"validBefore", ok}, {"validAfter", aft.finite && aft.dense}, {"checkBefore", cur.check},
+                          {"checkAfter", aft.check}, {"finite", aft.finite},
+                          {"firstKept", !aft.pts.empty() && same(aft.pts.front(), cur.pts.front())},
+                          {"lastKept", !aft.pts.empty() && same(aft.pts.back(), cur.pts.back())}, {"lastIsGoal", false},
+                          {"changed", !samePts(aft.pts, cur.pts)}});
+            }
+            (void)L;
+        }
+
         // ---- hybridization session
         void runHybridSession()
         {
@@ -858,6 +923,8 @@ namespace c17
         Chain c(W, k, tr, seed);
         if (k % 500 == 499)
             c.runProbe();
+        else if (k % 25 == 12)
+            c.runPerturbStepProbe();
         else if (k % 10 == 3)
             c.runInterruptProbe();
         else if (k % 7 == 6)
